@@ -19,6 +19,7 @@ RULE = (
     "normalised span trees, sibling interleaving being schedule dependent) and exactly one shutdown. The emission "
     "sites hit (event type x nested or not) are tabulated. Non-trivial: baseline stream has >= 4 events; distinct = "
     "(program shape, variant, fault position class)."
+    ' Also top-level runner.map over 0-3 items (empty maps included) with a processor failing on every event, on one event or at shutdown, next to a healthy one, both registration orders.'
 )
 ASSUMPTIONS = ["processors raise Exception subclasses (the dispatcher's contract); BaseException is out of scope"]
 DECIDING = ["fault_runs", "streams_compared"]
